@@ -80,7 +80,9 @@ Proof. exact no_limit_error_within_peer_view. Qed.
 Print Assumptions C16_no_limit_error_within_peer_view.
 
 (** "the limit it advertised itself": how the two client constructors select it (LimitSel, tied by
-    cases through the real constructors: plain, parrots, parameter suppressed, values 2..9).
+    cases through the real constructors: plain, parrots, parameter suppressed, values 2..9; the
+    spec-driven constructor passes SetConnectionIDLimit the value the peer reads off the wire, 2
+    when the spec leaves the parameter out).
     The bound the manager enforces is never below the active_connection_id_limit on the wire
     (absent = 2), equals it for the plain client and for every spec advertising at least
     MaxActiveConnectionIDs; and it is the connection-ID component of C12's enforced limits, so
